@@ -51,7 +51,7 @@ func c01Harness(freePresentation bool) Harness {
 
 // c01Sizes: larger well-formed feeds (no cell variation): n rows per table.
 func c01Sizes(c *Ctx) {
-	k := []int{5, 9, 17, 33, 64}[c.Free("rows_per_table", 5)]
+	k := []int{5, 9, 17, 33, 64, 129, 257}[c.Free("rows_per_table", 7)]
 	n := staticCounts{agencies: k, routes: k, stops: k, transfers: k, calendars: k, calendarDates: k, shapes: k / 2, shapePoints: 3, trips: k, frequencies: k, stopTimes: 3 * k}
 	m := genStaticFeedN(c, false, n, nil, nil)
 	p := genPresentation(c, false)
@@ -80,7 +80,7 @@ func init() {
 	register(&Check{
 		ID:    "C01",
 		Level: "model_checking",
-		Rule: "well-formed feeds within k deviations of a 10-file base feed: row count of each table (0-6), every cell over its kind's alphabet (texts: space / comma+quote / non-ASCII / embedded LF / blank; all enum digits; times 00:00:00, 4:05:06, 25:10:05, 47:59:59; decimals 0, 1.5, -73.25, ' 2.5 ', 1e-3, blank; ints 0, -5, 2147483647, blank; dates incl. DST days and leap day; 7 agency zones incl. unknown and zones whose DST switches precede UTC midnight (Sydney, Lord Howe) with their switch days; values starting with '#'; extra members in sub-folders named like supported tables), id spellings, x 9 presentation dimensions (column order, unknown column position, extra files, member order, deflate, BOM, CRLF, trailing newline, full quoting); quick k<=2, plus feeds of 5..64 rows per table x <= 2 presentation deviations; thorough additionally the full presentation product (1152) x k<=1; " +
+		Rule: "well-formed feeds within k deviations of a 10-file base feed: row count of each table (0-6), every cell over its kind's alphabet (texts: space / comma+quote / non-ASCII / embedded LF / blank; all enum digits; times 00:00:00, 4:05:06, 25:10:05, 47:59:59; decimals 0, 1.5, -73.25, ' 2.5 ', 1e-3, blank; ints 0, -5, 2147483647, blank; dates incl. DST days, leap day, 00010101 and 99991231; 9 agency zones incl. unknown, names without a slash (Japan, EST5EDT) and zones whose DST switches precede UTC midnight (Sydney, Lord Howe) with their switch days; values starting with '#'; 'the same value as the row above' for text, time, decimal and colour cells; extra members in sub-folders named like supported tables), id spellings, x 9 presentation dimensions (column order, unknown column position, extra files, member order, deflate, BOM, CRLF, trailing newline, full quoting); quick k<=2, plus feeds of 5..257 rows per table x <= 2 presentation deviations; thorough additionally the full presentation product (1152) x k<=1; " +
 			"non-trivial = every distinct archive; oracle = reference interpretation of the tables",
 		Assumptions: []string{"archive/zip and the harness CSV writer are trusted as renderer", "location_type 0 with a parent is a platform, as the library's enum documents", "optional default-bearing fields are written explicitly (blank/absent is C10)"},
 		Scenarios: func(tier string) []*Scenario {
